@@ -253,6 +253,11 @@ inline ::std::coroutine_handle<> Cancellable<A>::await_suspend(
     co_return co_await ::std::forward<A>(awaitable);
   }(::std::forward<A>(_awaitable), id);
   auto proxy_handle = _task.handle();
+  // The proxy runs on behalf of the awaiter: without an executor of its own, an
+  // inner task that suspends would be resumed through a null executor
+  if (handle.promise().executor() != nullptr) {
+    proxy_handle.promise().set_executor(*handle.promise().executor());
+  }
   set_proxy_promise(&proxy_handle.promise());
   if (_on_suspend) {
     _on_suspend(Cancellation {id});
